@@ -68,9 +68,23 @@ def entriesOk (v : Variant) : Bool :=
         decide (s.setAttributes < 8192)
     | .error _ => false
 
+/-- Code `k` only switches attributes off: at least those of `must`, at most those of `may`. -/
+def offRow (v : Variant) (k must may : Nat) : Bool :=
+  match parsedFields v k with
+  | some F => F.color.isNone && F.bgcolor.isNone && F.attributes == 0 && F.link.isNone && !F.isNull &&
+      (F.setAttributes &&& must == must) && (F.setAttributes ||| may == may)
+  | none => false
+
+/-- The "off" codes as ECMA-48 numbers them: 22 normal intensity (not bold, not dim), 23 not italic,
+24 not underlined (rich keeps the double underline; both readings are admitted), 25 steady (likewise for
+the rapid blink), 27 positive image, 28 revealed, 29 not crossed out, 54 not framed / encircled, 55 not overlined. -/
+def offRowsOk (v : Variant) : Bool :=
+  offRow v 22 3 3 && offRow v 23 4 4 && offRow v 24 8 520 && offRow v 25 16 48 && offRow v 27 64 64 &&
+  offRow v 28 128 128 && offRow v 29 256 256 && offRow v 54 3072 3072 && offRow v 55 4096 4096
+
 def tablesOk (v : Variant) : Bool :=
   (List.range 13).all (bitOk v) && colorRowsOk v && entriesOk v &&
-    sgrLookup 38 == none && sgrLookup 48 == none
+    sgrLookup 38 == none && sgrLookup 48 == none && offRowsOk v
 
 /-- `str(n)` for the numbers that occur as SGR parameters. -/
 def digitsOk : Bool := (List.range 256).all fun n => paramOk (natStr n) n
